@@ -739,7 +739,7 @@ pub fn run(ctx: &Ctx) -> PropertyReport {
     );
     let sub = crate::engine::replay_subcheck_or_all(ctx);
     if sub.runs("groups") {
-        let cases = ctx.cfg.cases(40_000, 800_000);
+        let cases = ctx.cfg.cases(120_000, 1_500_000);
         let mut r = ctx.run_prop("groups", cases, group_strategy, body);
         for l in ["mixes_spellings_of_one_logical_property", "instance_lacks_property_a_sibling_has", "has_legacy_spelling", "has_alias_spelling", "unknown_class"] {
             r.floor(l, cases / 100);
